@@ -39,7 +39,7 @@ static __attribute__((noinline)) void snap(uint8_t *dst, const volatile uint8_t 
 static size_t len(env_t *e, size_t max) { return rng_below(&e->shape, (uint32_t)max + 1); }
 static uint8_t pubbuf[256];
 static const uint8_t *pub(env_t *e, size_t n) { for (size_t i = 0; i < n; ++i) pubbuf[i] = (uint8_t)rng_u64(&e->shape); return pubbuf; }
-static uint8_t sink[2048];
+static uint8_t sink[20000];
 
 /* ---------------------------------------------------------------- C objects */
 static void o_state(void *p, env_t *e)
@@ -77,6 +77,7 @@ O_HASH(ascon_hash, ascon_hash_state_t) O_HASH(ascon_hasha, ascon_hasha_state_t)
     ST *s = (ST *)p; size_t l1 = 1 + len(e, 90), ol = len(e, 50), cl = len(e, 20); int kind = (int)len(e, 2); \
     if (kind == 0) P##_init(s); else if (kind == 1) P##_init_fixed(s, 1 + len(e, 60)); else P##_init_custom(s, "wipe", e->sec + 400, cl, 0); \
     P##_absorb(s, e->sec, l1); if (ol) P##_squeeze(s, sink, ol); \
+    if (len(e, 3) == 0) { P##_squeeze(s, sink, 300 + len(e, 700)); if (len(e, 1)) P##_absorb(s, e->sec + 300, len(e, 30)); } /* long squeeze, absorb after squeeze */ \
     LIVE(e, s); \
     P##_free(s); }
 O_XOF(ascon_xof, ascon_xof_state_t) O_XOF(ascon_xofa, ascon_xofa_state_t)
@@ -109,8 +110,9 @@ O_KMAC(ascon_kmac, ascon_kmac_state_t) O_KMAC(ascon_kmaca, ascon_kmaca_state_t)
     P##_free(s); }
 O_KDF(ascon_kdf, ascon_kdf_state_t) O_KDF(ascon_kdfa, ascon_kdfa_state_t)
 #define O_HKDF(P, ST) static void o_##P(void *p, env_t *e) { \
-    ST *s = (ST *)p; size_t kl = 1 + len(e, 60), sl = len(e, 30), ol = len(e, 100); \
+    ST *s = (ST *)p; size_t kl = 1 + len(e, 60), sl = len(e, 30), ol = len(e, 100); int big = (int)len(e, 3) == 0; \
     P##_extract(s, e->sec, kl, e->sec + 100, sl); if (ol) P##_expand(s, pub(e, 5), 5, sink, ol); \
+    if (big) { size_t more = 8000 + len(e, 300); P##_expand(s, pub(e, 5), 5, sink, more); if (len(e, 1)) P##_expand(s, pub(e, 5), 5, sink, len(e, 40)); } /* up to and across the 255-block limit */ \
     LIVE(e, s); \
     P##_free(s); }
 O_HKDF(ascon_hkdf, ascon_hkdf_state_t) O_HKDF(ascon_hkdfa, ascon_hkdfa_state_t)
@@ -123,6 +125,7 @@ static void o_random(void *p, env_t *e)
     uint64_t ts; memcpy(&ts, e->sec, 8); tape_set(TAPE_RANDOM, ts);
     ascon_random_init(s);
     if (ol) ascon_random_fetch(s, sink, ol);
+    if (len(e, 3) == 0) { ascon_random_fetch(s, sink, 16384 + len(e, 100)); ascon_random_fetch(s, sink, len(e, 40)); } /* forces the automatic reseed */
     if (fl) ascon_random_feed(s, e->sec + 64, fl);
     if (len(e, 1)) ascon_random_reseed(s);
     LIVE(e, s);
